@@ -40,9 +40,18 @@ def _not3(v):
 
 
 class FlagEnv:
-  def __init__(self, flag: str, value: bool):
+  """Three-valued evaluation of flag tests under an assignment {member: bool} of one flag enum; bits of the flag word
+  that are not assigned are unknown. Bitwise expressions are evaluated per bit (0 / 1 / unknown) over the enum's members
+  plus one pseudo-bit standing for every other bit position, so `~(flags | ~(A | B))` and `flags & (A | B)` are exact."""
+
+  def __init__(self, flag: str, value: bool, more: Optional[Dict[str, bool]] = None):
     self.cls, self.member = flag.split(".")
     self.value = value
+    self.assign: Dict[str, bool] = {self.member: value}
+    for k, v in (more or {}).items():
+      c, m = k.split(".")
+      if c == self.cls:
+        self.assign[m] = v
     self._host_cache: Dict[str, Optional[bool]] = {}
     self.lc = None  # launch context used to resolve scalar kernel parameters to their host binding
 
@@ -56,18 +65,57 @@ class FlagEnv:
         self._host_cache[text] = U
     return self._host_cache[text]
 
+  # bit vectors: dict member -> 0 | 1 | None, key "*" = every other bit position
+  def _bits(self, n):
+    if isinstance(n, ast.Attribute) and isinstance(n.value, ast.Name) and n.value.id == self.cls:
+      return {n.attr: 1}
+    if isinstance(n, ast.Attribute) and n.attr == ("disableflags" if self.cls == "DisableBit" else "enableflags"):
+      b = {"*": U, "?": U}  # "?" = default for unassigned members
+      b.update({m: int(v) for m, v in self.assign.items()})
+      return b
+    if isinstance(n, ast.Constant) and n.value == 0:
+      return {}
+    if isinstance(n, ast.UnaryOp) and isinstance(n.op, ast.Invert):
+      a = self._bits(n.operand)
+      if a is None:
+        return None
+      out = {k: (U if v is U else 1 - v) for k, v in a.items()}
+      out.setdefault("*", 1)
+      out.setdefault("?", 1)
+      return out
+    if isinstance(n, ast.BinOp) and isinstance(n.op, (ast.BitAnd, ast.BitOr)):
+      a, b = self._bits(n.left), self._bits(n.right)
+      if a is None or b is None:
+        return None
+      out = {}
+      for k in set(a) | set(b) | {"*", "?"}:
+        x = a.get(k, a.get("?", 0) if k != "*" else 0)
+        y = b.get(k, b.get("?", 0) if k != "*" else 0)
+        if isinstance(n.op, ast.BitAnd):
+          out[k] = 0 if (x == 0 or y == 0) else (1 if (x == 1 and y == 1) else U)
+        else:
+          out[k] = 1 if (x == 1 or y == 1) else (0 if (x == 0 and y == 0) else U)
+      return out
+    return None
+
+  @staticmethod
+  def _truthy(bits) -> Optional[bool]:
+    if bits is None:
+      return U
+    if any(v == 1 for v in bits.values()):
+      return True
+    if all(v == 0 for v in bits.values()):
+      return False
+    return U
+
   def _h(self, n) -> Optional[bool]:
     if isinstance(n, ast.BoolOp):
       vals = [self._h(v) for v in n.values]
       return _and3(vals) if isinstance(n.op, ast.And) else _or3(vals)
     if isinstance(n, ast.UnaryOp) and isinstance(n.op, ast.Not):
       return _not3(self._h(n.operand))
-    if isinstance(n, ast.BinOp) and isinstance(n.op, ast.BitAnd):
-      txt = ast.unparse(n)
-      members = re.findall(rf"{self.cls}\.(\w+)", txt)
-      if members == [self.member] and ("disableflags" in txt or "enableflags" in txt):
-        return self.value
-      return U
+    if (isinstance(n, ast.BinOp) and isinstance(n.op, (ast.BitAnd, ast.BitOr))) or (isinstance(n, ast.UnaryOp) and isinstance(n.op, ast.Invert)):
+      return self._truthy(self._bits(n))
     if isinstance(n, ast.Compare) and len(n.ops) == 1 and isinstance(n.ops[0], (ast.Eq, ast.NotEq)) and isinstance(n.comparators[0], ast.Constant) and n.comparators[0].value == 0:
       v = self._h(n.left)
       if v is U:
@@ -100,8 +148,8 @@ class FlagEnv:
       return _or3([self.term(a) for a in t.args])
     if o == "bin" and t.args[0] == "&":
       for a, b in ((t.args[1], t.args[2]), (t.args[2], t.args[1])):
-        if isinstance(b, T) and b.op == "enum" and b.args[0] == self.cls and b.args[1] == self.member and isinstance(a, T) and a.op in ("p", "cv", "ld"):
-          return self.value
+        if isinstance(b, T) and b.op == "enum" and b.args[0] == self.cls and b.args[1] in self.assign and isinstance(a, T) and a.op in ("p", "cv", "ld"):
+          return self.assign[b.args[1]]
       return U
     if o == "cmp" and t.args[0] in ("==", "!=") and isinstance(t.args[2], T) and t.args[2].op == "c" and t.args[2].args[0] == 0:
       v = self.term(t.args[1])
@@ -183,3 +231,46 @@ def live_writes(db: DB, entries, flag: str, value: bool, fields: Set[str]) -> Di
           continue
         out[k].append(f"{lc.name}@{a.loc}")
   return out, total
+
+
+def check_sibling_gating(res, db: DB, entries, pairs, members) -> int:
+  """R-FLAGS.3: for each (derivative kernel, force kernel) pair and every assignment of `members` (DisableBit names),
+  if every launch of the force kernel is unreachable under the assignment, every launch of its velocity-derivative
+  sibling must be unreachable too (the implicit integrators must not add the derivative of a force that is off)."""
+  import itertools
+
+  from ..report import Finding
+
+  launches: Dict[str, List[tuple]] = {}
+  for entry in entries:
+    hi = db.trace(entry)
+    for ev in hi.events:
+      if ev.kind == "launch" and ev.kernel is not None:
+        launches.setdefault(ev.kernel.fi.key.split(".kernel")[0], []).append((ev.pc, ev.loc))
+  n = 0
+  for dk, fk in pairs:
+    if dk not in launches or fk not in launches:
+      res.error(f"anchor vanished: no launch of {dk if dk not in launches else fk} in {entries}")
+      continue
+    for vals in itertools.product([False, True], repeat=len(members)):
+      asg = {f"DisableBit.{m}": v for m, v in zip(members, vals)}
+      first = next(iter(asg))
+      env = FlagEnv(first, asg[first], asg)
+      f_dead = all(env.pc_host(pc) is False for pc, _ in launches[fk])
+      if not f_dead:
+        continue
+      n += 1
+      live = [loc for pc, loc in launches[dk] if env.pc_host(pc) is not False]
+      setbits = "+".join(m for m, v in zip(members, vals) if v) or "none"
+      res.ob(
+        not live,
+        f"{dk}|{fk}|{setbits}",
+        Finding(
+          "R-FLAGS.3",
+          f"{dk}|{fk}|{setbits}",
+          f"with {setbits} disabled no launch of {fk} is reachable, but its velocity derivative {dk} is still launched: the implicit integrators add the derivative of a force that is switched off",
+          live[0] if live else "",
+        ),
+        sample={"derivative": dk, "force": fk, "disabled": setbits},
+      )
+  return n
